@@ -177,7 +177,13 @@ def _stops_at_first_failure(cmds):
 
 def _preamble_ok(cmds, wd):
     """cd into the working directory first (any correct quoting), then only exports / set; errexit on at the end."""
-    if len(cmds) < 2 or shell.shell_words(cmds[0]) != ["cd", wd]:
+    if len(cmds) < 2:
+        return False
+    try:
+        first = shell.shell_words(cmds[0])
+    except Exception:
+        return False          # not a plain command line (expansions, unbalanced quotes): in particular not `cd <directory>`
+    if first != ["cd", wd]:
         return False
     for c in cmds[1:]:
         if not (c.startswith("export ") or c.split()[0] == "set"):
